@@ -28,6 +28,10 @@ def box(name, N):
         return [1e10] * N, [1e10 + 1.0] * N
     if name == "B0c":     # the unit cube centred at the origin (symmetric: -0.0 / +0.0 coordinates)
         return [-0.5] * N, [0.5] * N
+    if name == "S":       # some axes symmetric about the origin, others not
+        lows = [-1.0, 0.0, -2.0, 1.0, -3.0]
+        ups = [1.0, 4.0, 2.0, 2.0, 3.0]
+        return lows[:N], ups[:N]
     if name == "E":       # equal side lengths, different offsets per axis (a "cube" only by its widths)
         return [2.0 * i for i in range(N)], [2.0 * i + 1.0 for i in range(N)]
     if name == "D":       # bounds that are not ascending over the coordinates, very different lower bounds
